@@ -612,6 +612,27 @@ def m_deposed(m, w, old=N1, new=N2, victim=N3, unnoticed=False, op='rem', pre=0,
     return w
 
 
+def m_lagsnap_added(m, w, leader=N1, lag=N3, x=N4):
+    """Dynamic membership: `lag` is cut off, the others add the spare node x (spawned, caught up) and commit more
+    commands, the leader compacts: `lag` learns about x only from the snapshot it will be sent."""
+    w = steady(m, w, 1, leader)
+    w = m.isolate(w, lag)
+    rest = [n for n, _ in w.nodes if n != lag and m.summary(w, n).alive]
+    w = m.do(w, ('M', leader, 'add', x, 'api', 'free'), ('Z', leader))
+    w = m.do(w, ('Sp', x, leader))
+    for n in rest:
+        if m.can_reconnect(w, n, x):
+            w = m.do(w, ('R', n, x, 'free'))
+    rest = rest + [x]
+    w = m.drain(w, only=rest)
+    w = beat(m, w, leader, only=rest, times=4)
+    w = submit(m, w, leader, 2, only=rest)
+    w = compact(m, w, leader)
+    if x not in m.summary(w, leader).others or m.summary(w, leader).first < 4:
+        m.seed_shape_ok = False
+    return w
+
+
 def m_readd_lateack(m, w, leader=N1, other=N2, slow=N3, x=N4):
     """3 members + a spare node x. `slow` receives everything but its answers to the leader are held
     back from the start (so the leader still has match index 0 for it). 'add x' was committed (x spawned,
@@ -691,7 +712,7 @@ def candidates(m, w, who=(N1, N2)):
     return w
 
 
-SEEDS = dict(deposed_runahead=deposed_runahead, forwarded_acked=forwarded_acked, m_readd_lateack=m_readd_lateack, vote_requested=vote_requested, forwarded_stale=forwarded_stale, reelected_cache3=reelected_cache3, deposed_obs=deposed_obs, voted=voted, stalled_old_code=stalled_old_code, reelected5=reelected5, stale_reset5=stale_reset5, stale_vote5=stale_vote5, stale_snapshot=stale_snapshot, ahead_full=ahead_full, fig8_full=fig8_full, candidates=candidates, battery_lagsnap=battery_lagsnap, ahead=ahead, lagging_newleader=lagging_newleader, m_deposed=m_deposed, split=split, version_snap=version_snap, fresh=fresh, steady=steady, lagging=lagging, lagging_snap=lagging_snap, deposed=deposed,
+SEEDS = dict(m_lagsnap_added=m_lagsnap_added, deposed_runahead=deposed_runahead, forwarded_acked=forwarded_acked, m_readd_lateack=m_readd_lateack, vote_requested=vote_requested, forwarded_stale=forwarded_stale, reelected_cache3=reelected_cache3, deposed_obs=deposed_obs, voted=voted, stalled_old_code=stalled_old_code, reelected5=reelected5, stale_reset5=stale_reset5, stale_vote5=stale_vote5, stale_snapshot=stale_snapshot, ahead_full=ahead_full, fig8_full=fig8_full, candidates=candidates, battery_lagsnap=battery_lagsnap, ahead=ahead, lagging_newleader=lagging_newleader, m_deposed=m_deposed, split=split, version_snap=version_snap, fresh=fresh, steady=steady, lagging=lagging, lagging_snap=lagging_snap, deposed=deposed,
              deposed_snap=deposed_snap, deposed_twice=deposed_twice, pending=pending, reconnect_pipeline=reconnect_pipeline,
              forwarded=forwarded, fig8=fig8)
 
